@@ -73,6 +73,9 @@ func GetAVCProtectRanges(spsMap map[uint32]*avc.SPS, ppsMap map[uint32]*avc.PPS,
 
 		pos += naluLength
 	}
+	// What stands after the last NAL unit (the length field of a final empty NAL unit) is clear data too:
+	// the sub-samples must add up to the size of the sample.
+	clearEnd = uint32(length)
 	if clearEnd > clearStart {
 		ssps = AppendProtectRange(ssps, clearEnd-clearStart, 0)
 	}
@@ -129,6 +132,9 @@ func GetHEVCProtectRanges(spsMap map[uint32]*hevc.SPS, ppsMap map[uint32]*hevc.P
 
 		pos += naluLength
 	}
+	// What stands after the last NAL unit (the length field of a final empty NAL unit) is clear data too:
+	// the sub-samples must add up to the size of the sample.
+	clearEnd = uint32(length)
 	if clearEnd > clearStart {
 		ssps = AppendProtectRange(ssps, clearEnd-clearStart, 0)
 	}
